@@ -23,6 +23,7 @@ use vstd::std_specs::iter::IteratorSpec;
 //@@ DEFINE ENV_REAL
 //@@ INCLUDE gen_types.inc.rs
 pub struct Identifier { _x: u8 }
+pub struct Class { _x: u8 }
 
 verus! {
 
@@ -84,6 +85,8 @@ pub fn gen_primitive(ast: &AST, ty: &str, env: &Environment, constr: &mut Constr
 #[verifier::external_body]
 pub fn constrain_args(args: &[AST], env: &Environment, ctx: &Context, constr: &mut ConstrBuilder) -> (r: Constrained)
     ensures mono(*old(constr), *final(constr)), r is Err ==> r->Err_0@.len() >= 1,
+        // A-EXT: defining the parameters does not touch the caught set (the result is threaded through `generate`)
+        r matches Ok(a) ==> a.raises_caught == env.raises_caught,
 { unimplemented!() }
 /// definitions (unit GENDEF)
 #[verifier::external_body]
@@ -150,6 +153,7 @@ pub fn verif_havoc_arm_types(cases: &Vec<AST>) -> (r: TypeResult<HashSet<TrueNam
 { unimplemented!() }
 // ---- constr_col_lookup: where a for-variable / comprehension variable is DEFINED (C09) -------------------------------------
 #[verifier::external_type_specification] #[verifier::external_body] pub struct ExIdentifier(Identifier);
+#[verifier::external_type_specification] #[verifier::external_body] pub struct ExClass(Class);
 /// the (mutable, name) pairs an identifier pattern binds (Identifier::try_from + fields: iterator code; a function of
 /// the pattern)
 pub uninterp spec fn id_fields(a: AST) -> Seq<(bool, String)>;
@@ -462,6 +466,113 @@ pub open spec fn with_post(ast: AST, env: Environment, r: Constrained, b: Constr
     ensures
         mono(*old(constr), *final(constr)),                  //# visits_are_never_forgotten [C09]
         with_post(*ast, *env, r, *final(constr)),                                //# alias_is_visible_in_the_body_only [C09]
+        r is Err ==> r->Err_0@.len() >= 1,                                       //# rejection_carries_a_diagnostic [-]
+//@@ END
+
+// ---- function definitions (C08: declared raises must be Exceptions and are caught inside the body; C09: a function's names
+// ---- stay inside) -----------------------------------------------------------------------------------------------------------
+/// A-EXT (class hierarchy): the class `n` has `Exception` among its ancestors (Context::class + Class::has_parent)
+pub uninterp spec fn is_exception(ctx: Context, n: TrueName) -> bool;
+pub uninterp spec fn cls_of(c: Class) -> TrueName;
+pub uninterp spec fn exception_name() -> Name;
+impl Context {
+    #[verifier::external_body]
+    pub fn class(&self, n: &TrueName, pos: Position) -> (r: TypeResult<Class>)
+        ensures r matches Ok(c) ==> cls_of(c) == *n, r is Err ==> r->Err_0@.len() >= 1,
+    { unimplemented!() }
+}
+impl Class {
+    #[verifier::external_body]
+    pub fn has_parent(&self, name: &Name, ctx: &Context, pos: Position) -> (r: TypeResult<bool>)
+        ensures *name == exception_name() ==> (r matches Ok(b) ==> b == is_exception(*ctx, cls_of(*self))), r is Err ==> r->Err_0@.len() >= 1,
+    { unimplemented!() }
+}
+/// OUTLINED `Name::from(clss::EXCEPTION)`
+#[verifier::external_body]
+pub fn verif_exception_name() -> (r: Name) ensures r == exception_name() { unimplemented!() }
+/// HAVOCKED preamble of the FunDef arm: constructor bookkeeping (which non-nullable fields of the class must be assigned)
+#[verifier::external_body]
+pub fn verif_havoc_init_fields(id: &AST, env: &Environment, ctx: &Context) -> (r: TypeResult<(Option<Class>, HashSet<String>)>)
+    ensures r is Err ==> r->Err_0@.len() >= 1,
+{ unimplemented!() }
+/// the classes a `raise [..]` clause names: TrueName::try_from per entry (OUTLINED map / partition / flat_map chain: the
+/// entries with their positions, or the conversion errors)
+pub uninterp spec fn declared(raises: Seq<AST>) -> Seq<TrueName>;
+/// the set of classes of the entries that converted (what `.map(|(_, r)| r.unwrap()).collect()` collects)
+pub uninterp spec fn ok_names(v: Seq<(Position, TypeResult<TrueName>)>) -> Set<TrueName>;
+#[verifier::external_body]
+pub fn verif_declared_raises(raises: &Vec<AST>) -> (r: TypeResult<Vec<(Position, TypeResult<TrueName>)>>)
+    ensures r matches Ok(v) ==> v@.len() == declared(raises@).len() && (forall|i: int| 0 <= i < v@.len() ==> (#[trigger] v@[i]).1 == Ok::<TrueName, Vec<TypeErr>>(declared(raises@)[i]))
+            && (forall|n: TrueName| ok_names(v@).contains(n) <==> declared(raises@).contains(n)) /* all entries are Ok: the collected set is the set of declared classes */,
+        r is Err ==> r->Err_0@.len() >= 1,
+{ unimplemented!() }
+/// OUTLINED `raises.into_iter().map(|(_, r)| r.unwrap()).collect()`: the set of the declared classes
+#[verifier::external_body]
+pub fn verif_collect_raises(raises: Vec<(Position, TypeResult<TrueName>)>) -> (r: HashSet<TrueName>)
+    ensures hs(r) == ok_names(raises@),
+{ unimplemented!() }
+/// HAVOCKED: "non nullable attribute not assigned to in constructor" report (map / collect closures over body_env.unassigned)
+#[verifier::external_body]
+pub fn verif_havoc_unassigned_report(class: &Class, body_env: &Environment, pos: Position) -> (r: TypeResult<()>)
+    ensures r is Err ==> r->Err_0@.len() >= 1,
+{ unimplemented!() }
+pub assume_specification[<TrueName as Clone>::clone](t: &TrueName) -> (r: TrueName) ensures r == *t;
+pub assume_specification<T: Clone, E: Clone>[<Result<T, E> as Clone>::clone](t: &Result<T, E>) -> (r: Result<T, E>) ensures (*t matches Ok(x) ==> r matches Ok(y) && cloned(x, y)), (*t is Err ==> r is Err);
+pub const INIT: &'static str = "init";
+
+/// the environment a function body is checked in
+pub open spec fn body_env_ok(be: Environment, env: Environment, raises: Seq<AST>, ret: Option<Box<AST>>) -> bool {
+    // inside a function; may raise what the caller's context already covers plus exactly the DECLARED classes
+    &&& be.in_fun
+    &&& forall|n: TrueName| hs(be.raises_caught).contains(n) <==> (hs(env.raises_caught).contains(n) || declared(raises).contains(n))
+    // a declared return type makes the body an expression with that return type
+    &&& (ret is Some ==> be.return_type is Some && be.is_expr)
+}
+pub open spec fn fundef_post(ast: AST, env: Environment, ctx: Context, r: Constrained, b: ConstrBuilder) -> bool {
+    match ast.node {
+        Node::FunDef { id, args, ret, raises, body, pure } => r matches Ok(e) ==> (
+            // nothing defined inside (parameters, locals) is visible after the definition
+            e == env
+            // only subclasses of Exception may be declared
+            && (forall|i: int| 0 <= i < declared(raises@).len() ==> is_exception(ctx, #[trigger] declared(raises@)[i]))
+            && (body matches Some(bd) ==> exists|be: Environment| #[trigger] seen(b, *bd, be) && body_env_ok(be, env, raises@, ret))),
+        Node::FunArg { .. } => r is Err,
+        _ => true,
+    }
+}
+
+#[verifier::loop_isolation(false)]
+//@@ FN src/check/constrain/generate/definition.rs | free | gen_def | props=C08,C09,C03
+//@@ REPLACE
+//@@< let (class, non_nullable_class_vars) = match &id.node { $$ };
+//@@> let (class, non_nullable_class_vars) = verif_havoc_init_fields(id, env, ctx)?;
+//@@ REPLACE
+//@@< let (raises, errs): (Vec<(Position, _)>, Vec<_>) = raises $$ .partition($$); if !errs.is_empty() { $$ }
+//@@> let raises_ast_g = Ghost(raises@); let raises = verif_declared_raises(raises)?;
+//@@ REPLACE
+//@@< Name::from(clss::EXCEPTION)
+//@@> verif_exception_name()
+//@@ REPLACE
+//@@< raises.into_iter().map($$).collect()
+//@@> verif_collect_raises(raises)
+//@@ REPLACE
+//@@< if let Some(class) = class { $$ }
+//@@> if let Some(class) = class { verif_havoc_unassigned_report(&class, &body_env, id.pos)?; }
+//@@ ITERNAME
+//@@< for (pos, raise) in &raises
+//@@> for (pos, raise) in rit: &raises
+//@@ HINT before
+//@@< let $rz = raise.clone()?;
+//@@> let ghost k = rit.index@; assert(*raise == raises@[k].1);
+//@@ LOOPINV
+//@@< for (pos, raise) in &raises
+//@@> invariant mono(*old(constr), *constr), rit.index@ <= raises@.len(),
+//@@ INVCLAIM
+//@@< for (pos, raise) in &raises
+//@@> forall|i: int| 0 <= i < rit.index@ ==> is_exception(*ctx, #[trigger] declared(raises_ast_g@)[i]), //# loop_every_declared_class_so_far_is_an_exception [C08]
+    ensures
+        mono(*old(constr), *final(constr)),                                      //# visits_are_never_forgotten [C09,C08]
+        fundef_post(*ast, *env, *ctx, r, *final(constr)),                        //# declared_raises_are_exceptions_and_cover_the_body_only [C08,C09]
         r is Err ==> r->Err_0@.len() >= 1,                                       //# rejection_carries_a_diagnostic [-]
 //@@ END
 
